@@ -4,7 +4,7 @@ import re
 from engine.rules import (MustPass, guard_edges, eq_matcher, pred_matcher, outcome, aggregates_of, calls_to,
                           call_checked, variant_edge_fails, switch_bool_edges, variant_edge, bool_place_edge, any_of)
 from engine.sym import Sym, strip, strip_deep, render, walk, short, roots, is_transparent_call, _Info
-from engine.rules import success_values
+from engine.rules import success_values, bool_atom
 from engine.callgraph import CallGraph
 from props import common as K
 
@@ -348,6 +348,43 @@ class Vocab:
             return positive
         return m
 
+    def entry_pred(self, body, entries, name_rx, arg_rxs=(), positive=True):
+        """Predicate call `name(args…)` whose arguments are given in the vocabulary of an entry function: matches in the
+        entry itself, and in a body all of whose free names are lifted to the entry (closure of it, private helper with its
+        single call site there) — on the LIFTED spelling only, so a helper's own `self` is never mistaken for the entry's.
+        Anywhere else nothing matches."""
+        rn = re.compile(name_rx)
+        ras = [re.compile(x) for x in arg_rxs]
+        usable = body.name in entries or (bool(self.env(body)) and self._roots_in(body, entries))
+
+        def m(rel, a, b):
+            if not usable or not (isinstance(rel, tuple) and rel[0] == "pred"):
+                return None
+            if not (rn.search(rel[1]) or rn.search(short(rel[1]))):
+                return None
+            for i, r in enumerate(ras):
+                if i >= len(a):
+                    return None
+                lt = self.lift(body, strip_deep(a[i]))
+                if not any(r.search(render(self.canon(lt, ex))) for ex in (False, True)):
+                    return None
+            return positive
+        return m
+
+    def _roots_in(self, body, entries, depth=0):
+        """Is `body` lifted (through single creation / call sites) up to one of `entries`?"""
+        self._scan()
+        created, called, _ = self._sites
+        if body.name in entries:
+            return True
+        if depth > 8 or not self.env(body):
+            return False
+        sites = created.get(body.name) if "{closure" in body.name.rsplit("::", 1)[-1] else called.get(body.name)
+        if not sites or len(sites) != 1:
+            return False
+        parent = sites[0][0] if isinstance(sites[0], tuple) else sites[0].body
+        return self._roots_in(parent, entries, depth + 1)
+
     def args(self, c):
         """Canonical forms of the arguments of a call site."""
         s = K.sym_of(c.body)
@@ -361,8 +398,84 @@ def mp_guard(f, name, gfn):
     return MustPass(f, lambda c: False, guard_fn=gfn, name=name)
 
 
+# ---------------------------------------------------------------------------
+# Call chains that also run through closures.
+#
+# Fact decided: "which (key, message, signature) reach verify_sig from the entry".  A step of the entry may be a direct call
+# (`self.crl.validate(k, t)?`) or the same call made by a closure handed to a combinator (`.and_then(|()| self.crl.validate(k,
+# t))`).  A link is therefore either a call site of a crate function (binding: parameter := argument) or a closure literal
+# given as an argument of any call (binding: capture := captured value; the closure's own parameters stay unbound).  Every
+# closure argument is followed, whatever the callee does with it — a superset of the real chains, which can only add to
+# "no-other-signature-inputs", never hide a triple.  Without closures the result is K.chains_to / K.compose.
+
+def chains_through_closures(f, entry, sink_pred, max_depth=10):
+    """[(links, sink)]: links = [(callee body name, {('param'|'upvar', name): term over the caller})]."""
+    memo = {}
+
+    def targets(b, c):
+        """(body name, binding) of the bodies that call c can enter."""
+        s = K.sym_of(b)
+        out = []
+        if c.res in f.bodies:
+            cb = f.body(c.res)
+            m = {}
+            for j, a in enumerate(c.args):
+                m[("param", cb.local_name(j + 1) or "_%d" % (j + 1))] = strip_deep(s.operand(a))
+            out.append((c.res, m))
+        for a in c.args:
+            ct = strip(s.operand(a))
+            if ct[0] == "closure" and ct[1] in f.bodies:
+                cb = f.body(ct[1])
+                out.append((ct[1], {("upvar", un): strip_deep(ct[2][ix]) for un, ix in Vocab._upvar_idx(cb) if ix < len(ct[2])}))
+        return out
+
+    def can(fn, depth):
+        if fn in memo:
+            return memo[fn]
+        memo[fn] = False
+        b = f.body(fn)
+        r = False
+        if b is not None and depth <= max_depth:
+            for c in b.calls():
+                if not c.is_static or b.is_cleanup(c.bb):
+                    continue
+                if sink_pred(c) or any(can(n, depth + 1) for n, _ in targets(b, c)):
+                    r = True
+                    break
+        memo[fn] = r
+        return r
+
+    out = []
+
+    def dfs(fn, links, seen):
+        b = f.body(fn)
+        if b is None or len(links) > max_depth:
+            return
+        for c in b.calls():
+            if not c.is_static or b.is_cleanup(c.bb):
+                continue
+            if sink_pred(c):
+                out.append((links, c))
+                continue
+            for n, m in targets(b, c):
+                if n not in seen and can(n, 0):
+                    dfs(n, links + [(n, m)], seen | {n})
+    dfs(entry, [], {entry})
+    return out
+
+
+def compose_through(chain, argidx):
+    """Argument `argidx` of the sink of a chain of chains_through_closures, over the parameters of the entry."""
+    links, sink = chain
+    t = strip_deep(K.sym_of(sink.body).operand(sink.args[argidx]))
+    for _, m in reversed(links):
+        t = strip_deep(_leaf_subst(t, m))
+    return t
+
+
 def run(ctx):
     f = ctx.facts()
+    V = Vocab(f)
     K.check_revocation_lookup(ctx, f, "ca::sigmsg")
     ctx.rule("R-CHK", "every success path passes a checked call to the sink (interprocedural)")
     ctx.rule("R-GRD", "success requires the guard literal (graph cut on its true edges)")
@@ -394,8 +507,16 @@ def run(ctx):
          MustPass(f, call_with(IDC + "validate_ee_at", ["self.ee_cert", "issuer_key", "when"]), name="validate_ee_at")),
         ("R-CHK", "SignedMessageCrl::validate(self.crl, issuer_key, when)",
          MustPass(f, call_with(CRL + "validate", ["self.crl", "issuer_key", "when"]), name="crl.validate")),
+        # Fact: no success without the revocation lookup of *this message's* EE certificate in *this message's* CRL.  Either
+        # the reviewed call (whose body is decided below, verify_not_revoked:serial-not-listed), or — whatever the helper
+        # takes (the certificate, its serial, …) — a success-only-if-not-listed guard anywhere below the entry whose
+        # operands, read in the entry's vocabulary (V lifts parameters of single-call-site private helpers and closure
+        # captures), are self.crl's list and self.ee_cert's serial.
         ("R-CHK", "verify_not_revoked(self.crl, self.ee_cert)",
-         MustPass(f, call_with(CRL + "verify_not_revoked", ["self.crl", "self.ee_cert"]), name="verify_not_revoked")),
+         MustPass(f, call_with(CRL + "verify_not_revoked", ["self.crl", "self.ee_cert"]), name="verify_not_revoked",
+                  guard_fn=lambda bd, s, bb: guard_edges(bd, s, bb, V.entry_pred(
+                      bd, (SM + "validate_at",), r"RevokedCertificates::contains$",
+                      (r"^self\.crl\.tbs\.revoked_certs$", r"^TbsIdCert::serial_number\(self\.ee_cert\)$"), positive=False)))),
         ("R-GRD", "sid == ee_cert.subject_key_identifier()",
          mp_guard(f, "sid guard", lambda bd, s, bb: guard_edges(bd, s, bb, sid_guard))),
         ("R-GRD", "digest(content) == message_digest",
@@ -412,10 +533,11 @@ def run(ctx):
                    where=bb_.loc, detail=None if ok else K.why(f, mp, ent))
 
     # which key verifies which bytes (all chains from validate_at to verify_sig)
-    chains = K.chains_to(f, e, K.sink_verify_sig)
+    # (the steps of validate_at may be direct calls or closures of an `and_then` chain: chains_through_closures)
+    chains = chains_through_closures(f, e, K.sink_verify_sig)
     got = set()
     for ch in chains:
-        got.add((render(K.compose(ch, 1)), render(K.compose(ch, 2)), render(K.compose(ch, 3))))
+        got.add((render(compose_through(ch, 1)), render(compose_through(ch, 2)), render(compose_through(ch, 3))))
     want = {
         ("PublicKey::bits(TbsIdCert::subject_public_key_info(self.ee_cert))", "msg⟵SignedAttrs::encode_verify(self.signed_attrs)"
          if False else "SignedAttrs::encode_verify(self.signed_attrs)", "Signature::value(self.signature)"),
@@ -515,9 +637,15 @@ def run(ctx):
         ctx.missing("R-GRD", "verify_not_revoked", nr)
     else:
         ctx.saw_fn(nr)
-        g = pred_matcher(r"RevokedCertificates::contains$", (r"^self\.tbs\.revoked_certs$", r"^TbsIdCert::serial_number\(id_cert\)$"),
-                         positive=False)
-        mp = mp_guard(f, "not listed", lambda bd, s, bb: guard_edges(bd, s, bb, g))
+        # Fact: success only if the list of this CRL does not contain the serial of the EE certificate.  The serial may be
+        # computed here from the certificate parameter or handed in by the (single) caller: V.pred reads the operands as
+        # written and lifted to the caller (`self` = self.crl, the serial = serial_number(self.ee_cert)).
+        def not_listed(bd, s, bb):
+            return guard_edges(bd, s, bb, V.pred(
+                bd, r"RevokedCertificates::contains$",
+                (r"^self\.tbs\.revoked_certs$|^self\.crl\.tbs\.revoked_certs$",
+                 r"^TbsIdCert::serial_number\(id_cert\)$|^TbsIdCert::serial_number\(self\.ee_cert\)$"), positive=False))
+        mp = mp_guard(f, "not listed", not_listed)
         ok = mp.holds(nr)
         ctx.ob("R-GRD", "verify_not_revoked:serial-not-listed", ok,
                "verify_not_revoked succeeds only if the CRL does not contain the EE certificate's serial", where=nb.loc,
@@ -527,16 +655,19 @@ def run(ctx):
     if rb is None:
         ctx.missing("R-GRD", "RevokedCertificates::contains", rc)
     else:
-        # true is returned only on the true edge of entry.user_certificate == serial (in the decode closure)
+        # Fact: the answer is true only for an entry whose serial equals the argument.  Decided per VALUE of the answered
+        # bool, over all its reaching definitions (a `found` flag is multiply defined): each definition is
+        #   * the constant false,
+        #   * the constant true assigned where `entry.user_certificate == serial` is known to hold (the block is cut off
+        #     from the entry by the literal's true edges), or
+        #   * the value of that equality itself (`found = serial == entry.user_certificate`; `!=`, a negation or any
+        #     other computation is refused),
+        # and at least one definition of the last two kinds exists.  `return Ok(true)` inside the loop, a flag set under
+        # the test and a flag assigned the test are the same fact.
         inner = [bd for n, bd in f.bodies.items() if n.startswith(rc + "::{closure")]
         g = eq_matcher(r"user_certificate$", r"^\^?serial$")
         oks = []
         for bd in inner:
-            found = any(guard_edges(bd, outcome(bd).sym, bi, g) for bi, blk in enumerate(bd.blocks)
-                        if blk["term"]["t"] == "switch")
-            if not found:
-                continue
-            # Ok(true) only behind the eq-true edge
             oc = outcome(bd)
             edges = set()
             for bi, blk in enumerate(bd.blocks):
@@ -544,15 +675,42 @@ def run(ctx):
                     e2 = guard_edges(bd, oc.sym, bi, g)
                     if e2:
                         edges.update(e2)
-            true_blocks = []
+            reach = bd.reachable(0, removed_edges=edges)
+
+            def kinds(t, bi, seen=()):
+                """Kinds of the definitions of bool term t used / assigned in block bi: 'false' | 'guarded-true' | 'literal' |
+                'bad'."""
+                t = strip_deep(t)
+                r = render(t)
+                if t[0] == "const" or r in ("0", "1"):
+                    if r == "0":
+                        return ["false"]
+                    return ["guarded-true" if (r == "1" and bi not in reach) else "bad"]
+                if t[0] == "var":
+                    if t[2] in seen:
+                        return []
+                    out = []
+                    for dbb, dt in oc.sym.defs_of_var(t[2]):
+                        out += kinds(dt, dbb, seen + (t[2],))
+                    return out or ["bad"]
+                at = bool_atom(t)
+                if at is not None:
+                    rel, x, y, pos = at
+                    if g(rel, x, y) is True and pos:
+                        return ["literal"]
+                return ["bad"]
+            ks = []
             for bi, blk in enumerate(bd.blocks):
                 for si, st in enumerate(blk["stmts"]):
                     if st["s"] == "assign" and st["rv"]["r"] == "agg" and st["rv"].get("variant") == "Ok":
                         t = strip_deep(oc.sym.rvalue(st["rv"]))
-                        if render(t).endswith("{0: 1}"):
-                            true_blocks.append(bi)
-            reach = bd.reachable(0, removed_edges=edges)
-            oks.append(bool(true_blocks) and not [x for x in true_blocks if x in reach])
+                        if t[0] == "agg" and len(t[3]) == 1:
+                            ks += kinds(t[3][0][1], bi)
+                        else:
+                            ks.append("bad")
+            if not edges and "literal" not in ks:
+                continue          # this closure does not look at serials at all
+            oks.append("bad" not in ks and ("guarded-true" in ks or "literal" in ks))
         ctx.ob("R-GRD", "RevokedCertificates::contains:true-iff-serial-equal", bool(oks) and all(oks),
                "contains() reports true only for an entry whose serial equals the argument", where=rb.loc)
 
